@@ -9,7 +9,9 @@ def suspend_protocol(n, d0, d1, d2, ram, s, s2, dB, rB, K=12, reassign=True, wan
     """
     reset_globals()
     durs = [d0, d1, d2][:n]
-    pool = ResourcePool(pool_id=0, cpu_pool=4, ram_pool=200, ticks_per_second=1)
+    # commands go through the Executor (the public entry point), which routes them to its pool
+    ex = Executor(num_pools=1, cpus_per_pool=4, ram_gb_per_pool=200, ticks_per_second=1)
+    pool = ex.pools[0]
     pa, opsA = mk_pipeline("pa", 3, n, chain_bits(n), [[seg_ticks(durs[j], 1)] for j in range(n)])
     pb, opsB = mk_pipeline("pb", 3, 1, [], [[seg_ticks(dB, 1)]])
     aA = Assignment(ops=opsA, cpu=1, ram=ram, priority=Priority.BATCH_PIPELINE, pool_id=0, pipeline_id="pa")
@@ -44,7 +46,7 @@ def suspend_protocol(n, d0, d1, d2, ram, s, s2, dB, rB, K=12, reassign=True, wan
                     admissible = True
                     done_at_sus = j + 1
         try:
-            res = pool.run_one_tick(sus, asg)
+            res = ex.run_one_tick(sus, asg)
             raised = False
         except Exception:
             raised = True
@@ -130,7 +132,7 @@ def suspend_protocol(n, d0, d1, d2, ram, s, s2, dB, rB, K=12, reassign=True, wan
             fin = False
             for u in range(need):
                 try:
-                    r2 = pool.run_one_tick([], [a2] if u == 0 else [])
+                    r2 = ex.run_one_tick([], [a2] if u == 0 else [])
                 except Exception:
                     return "C10:resumed_work_raised"
                 for r in r2:
@@ -142,6 +144,56 @@ def suspend_protocol(n, d0, d1, d2, ram, s, s2, dB, rB, K=12, reassign=True, wan
                 return "C10:resumed_work_did_not_complete"
             seen.add("resumed")
             break
+    if want:
+        return "REACHED" if want in seen else ""
+    path_done()
+    return ""
+
+
+def two_suspensions(ramA, ramB, cpuA, cpuB, dA, dB, K=10, want=""):
+    """Two 2-operator containers in one pool; each is suspended in the scheduling phase right after
+    its first operator finished (first operators last dA / dB ticks, so the two requests come in the
+    same or in different ticks).  Each write-out lasts max(1, ram//20) ticks and returns exactly its
+    own allocation - also when both end in the same tick."""
+    reset_globals()
+    ex = Executor(num_pools=1, cpus_per_pool=8, ram_gb_per_pool=300, ticks_per_second=1)
+    pool = ex.pools[0]
+    pa, opsA = mk_pipeline("pa", 3, 2, [True], [[seg_ticks(dA, 1)], [seg_ticks(3, 1)]])
+    pb, opsB = mk_pipeline("pb", 3, 2, [True], [[seg_ticks(dB, 1)], [seg_ticks(3, 1)]])
+    aA = Assignment(ops=opsA, cpu=cpuA, ram=ramA, priority=Priority.BATCH_PIPELINE, pool_id=0, pipeline_id="pa")
+    aB = Assignment(ops=opsB, cpu=cpuB, ram=ramB, priority=Priority.BATCH_PIPELINE, pool_id=0, pipeline_id="pb")
+    WA = ramA // 20 if ramA // 20 >= 1 else 1
+    WB = ramB // 20 if ramB // 20 >= 1 else 1
+    free_cpu, free_ram = 8 - cpuA - cpuB, 300 - ramA - ramB
+    endA, endB = dA + WA - 1, dB + WB - 1      # tick in which the write-out ends (request at tick d)
+    seen = set()
+    for t in range(K):
+        sus = []
+        if t == dA:
+            sus.append(Suspend("c1", 0))
+        if t == dB:
+            sus.append(Suspend("c2", 0))
+        try:
+            res = ex.run_one_tick(sus, [aA, aB] if t == 0 else [])
+        except Exception as e:
+            return f"C10:admissible_suspension_rejected:{exc_name(e)}"
+        if res:
+            return "C10:result_for_suspended_container"
+        if t == endA:
+            free_cpu, free_ram = free_cpu + cpuA, free_ram + ramA
+        if t == endB:
+            free_cpu, free_ram = free_cpu + cpuB, free_ram + ramB
+        if endA == endB and t == endA:
+            seen.add("same_tick")
+        if pool.avail_cpu_pool != free_cpu or pool.avail_ram_pool != free_ram:
+            return "C10:free_resources_differ_from_model_with_two_suspensions"
+        n_sus = (1 if dA <= t < endA else 0) + (1 if dB <= t < endB else 0)
+        if len(pool.suspending_containers) != n_sus:
+            return "C10:number_of_suspending_containers_differs_from_model"
+    if opsA[1].state() != S.PENDING or opsB[1].state() != S.PENDING:
+        return "C10:unfinished_operator_not_pending_after_suspension"
+    if opsA[0].state() != S.COMPLETED or opsB[0].state() != S.COMPLETED:
+        return "C10:finished_operator_not_completed"
     if want:
         return "REACHED" if want in seen else ""
     path_done()
